@@ -277,6 +277,78 @@ SEND_SYNC = {
 }
 
 
+def run_ffi_fields(ck, F):
+    ck.rule("C16.ffi-private-pointers-reclaimed", "every raw-pointer field of an FFI private-data struct (children, dictionary) is reclaimed in the release path: "
+            "its value flows into Box::from_raw (in the release callback, its closures, or the Drop impl of the private data)", floor=4)
+    FROM = re.compile(r"(Box::<.*>::from_raw|boxed::Box::<T.*>::from_raw)$")
+    for adt_path, release in (("arrow_data::ffi::ArrayPrivateData", "arrow_data::ffi::release_array"), ("arrow_schema::ffi::SchemaPrivateData", "arrow_schema::ffi::release_schema")):
+        try:
+            adt = F.adt(adt_path)
+            rel = with_closures(F, release)
+        except factsmod.MissingAnchor as e:
+            ck.missing_anchor(str(e), "C16.ffi-private-pointers-reclaimed")
+            continue
+        crate = F.crate(adt_path.split("::")[0])
+        drop_fns = [f for f in crate.fns if f.get("impl_trait") == "std::ops::Drop" and re.sub(r"<.*$", "", f.get("impl_self") or "") == adt_path and "mir" in f]
+        for d in list(drop_fns):
+            drop_fns += [cl for cl in crate.closures_of.get(d["id"], []) if "mir" in cl]
+        ptr_fields = [f["name"] for f in adt["variants"][0]["fields"] if "*mut " in f["ty"]]
+        for field in ptr_fields:
+            reclaimed = False
+            for fn in rel + drop_fns:
+                b = Body(fn)
+                src = flow.locals_reading_field(b, field)
+                if not src:
+                    continue
+                tainted = b.taint(src)
+                for bb, t in b.calls():
+                    if FROM.search(callee(t) or "") and any(l in tainted for a in t["args"] for l in operand_locals(a)):
+                        reclaimed = True
+                # closures capturing the field's elements (iter over children): closure created from tainted value
+                for cl in crate.closures_of.get(fn.get("parent") if fn["kind"] == "Closure" else fn["id"], []):
+                    if "mir" not in cl:
+                        continue
+                    if any(FROM.search(callee(t) or "") for _, t in Body(cl).calls()):
+                        for pb, blk, loc in flow.closure_creations(F, cl):
+                            if pb.fn is fn:
+                                for (cb, ct, ai) in flow.value_flows_to_calls(pb, loc):
+                                    if any(l in tainted for a in ct["args"] for l in operand_locals(a)):
+                                        reclaimed = True
+            key = "%s.%s" % (adt_path.split("::")[-1], field)
+            if reclaimed:
+                ck.ok("C16.ffi-private-pointers-reclaimed", key, "flows into Box::from_raw on release")
+            else:
+                ck.bad("C16.ffi-private-pointers-reclaimed", key, "the exported pointer(s) in %s.%s are never turned back into a Box on release: that array/schema and the buffers it owns are released zero times"
+                       % (adt_path, field), "%s:%s" % (rel[0]["file"], rel[0]["line"]))
+
+
+def run_pool_atomics(ck, FX):
+    ck.rule("C16.pool-atomic-update", "the shared pool counter is only updated with atomic read-modify-write operations: no AtomicUsize::store whose value derives "
+            "from an AtomicUsize::load (a load/compute/store sequence loses concurrent updates)", floor=2)
+    c = FX.crate("arrow_buffer")
+    n = 0
+    for fn in c.fns:
+        if "mir" not in fn or not flow.norm(fn.get("parent") or fn["id"]).startswith(("arrow_buffer::pool", "<arrow_buffer::pool")):
+            continue
+        b = Body(fn)
+        for bb, t in b.calls():
+            cn = callee(t) or ""
+            if re.search(r"atomic::Atomic[^:]*(::<[^>]*>)?::(fetch_add|fetch_sub|fetch_update|compare_exchange|compare_exchange_weak|swap)$", cn):
+                n += 1
+                ck.ok("C16.pool-atomic-update", "%s -> %s" % (flow.norm(fn["id"]), cn.split("::")[-1]), "atomic read-modify-write")
+            if re.search(r"atomic::Atomic[^:]*(::<[^>]*>)?::store$", cn) and len(t["args"]) >= 2:
+                l = op_local(t["args"][1])
+                derived = False
+                if l is not None:
+                    _, calls = b.back_slice(l)
+                    derived = any(re.search(r"atomic::Atomic[^:]*(::<[^>]*>)?::load$", callee(c_) or "") for _, c_ in calls)
+                if derived:
+                    ck.bad("C16.pool-atomic-update", "%s -> store" % flow.norm(fn["id"]), "%s stores a value computed from a previous load of the atomic: concurrent claims/resizes/drops "
+                           "lose updates and pool accounting drifts from the live reservations" % fn["id"], b.loc(bb))
+                else:
+                    ck.ok("C16.pool-atomic-update", "%s -> store" % flow.norm(fn["id"]), "store of an independent value")
+
+
 def run_send_sync(ck, F):
     ck.rule("C16.send-sync-inventory", "the `unsafe impl Send/Sync` of the buffer and FFI crates are exactly the audited ones and keep their where-clauses "
             "(e.g. Buffer: Send only if Bytes: Send, Bytes only if its Deallocation owner is)", floor=len(SEND_SYNC))
@@ -365,9 +437,11 @@ def run(ck, tier):
             ck.bad("C16.inplace-through-unique", iid, "%s no longer goes through %s to obtain mutable storage" % (fid, via), "%s:%s" % (fns[0]["file"], fns[0]["line"]))
 
     run_ffi(ck, F)
+    run_ffi_fields(ck, F)
     pairs.check_cross(ck, F, "C16.export-bit-offsets", ["arrow_data", "arrow_array", "arrow_buffer"], 2)
     FX = factsmod.Facts("ext")
     run_forget(ck, FX, "ext")
+    run_pool_atomics(ck, FX)
     ck.note("Decided: type-level immutability (witnesses + impl facts), audited const casts, uniqueness before mutation, FFI export/release pairing, "
             "no stranded owner on mem::forget (pool feature on). Not decided: thread interleavings, logical equality of imported arrays.")
     info = dict(F.info)
